@@ -71,8 +71,10 @@ theorem exec_log_acqs (s : Sys) (op : Nat) (prio : Int) (req : List Nat) (adv : 
   split
   · generalize advanceCb (q.1.setCtx { q.2.1 with resAcq := true }) { q.2.1 with resAcq := true } adv 1 = a1
     split
-    · obtain ⟨t, h1, h2⟩ := execWork_shape a1.1 a1.2.1 adv (Ev.cp 0 a0.2.2 :: q.2.2.1 ++ [.cp 1 true])
-      exact ⟨.cp 1 true :: t, by rw [h1]; simp, h2⟩
+    · split
+      · obtain ⟨t, h1, h2⟩ := execWork_shape a1.1 a1.2.1 adv (Ev.cp 0 a0.2.2 :: q.2.2.1 ++ [.cp 1 true])
+        exact ⟨.cp 1 true :: t, by rw [h1]; simp, h2⟩
+      · exact ⟨[.cp 1 true, .abort], by simp [failWith], by simpa [failWith] using Tail.ended⟩
     · exact ⟨[.cp 1 false, .abort], by simp [failWith], by simpa [failWith] using Tail.cp1⟩
   · exact ⟨[.abort], by simp [failWith], by simpa [failWith] using Tail.acqFail⟩
 
